@@ -383,10 +383,12 @@ def gen_case(R, focus=None, max_side=400, max_tiles=260):
     else:
         case["sched"] = {"kind": "default"}
     case["pix"] = {
-        "kind": _w(R, [(3, "index"), (3, "random"), (2, "blocky"), (1, "const")]),
+        "kind": _w(R, [(3, "index"), (3, "random"), (2, "blocky"), (1, "const"), (2 if np.dtype(dtype).kind == "f" else 0, "huge")]),
         "seed": R.randrange(2**31),
         "holes": R.choice([0.0, 0.0, 0.1, 0.5]),
     }
+    if case["pix"]["kind"] == "huge" and R.random() < 0.7:
+        case["stats"] = True  # statistics of huge values are the point of that class
     return case
 
 
@@ -443,6 +445,17 @@ def make_pixels(case):
         if dt.kind == "f":
             a = (rng.standard_normal((S, H, W)) * 1e3).astype(dt)
         else:
+            a = rng.integers(lo, hi, size=(S, H, W), dtype=dt, endpoint=True)
+    elif kind == "huge":
+        # magnitudes near the top of the type's range (what an undeclared 9.96921e36 fill value or accumulated
+        # counts look like): statistics and any text rendering of them get long
+        if dt.kind == "f":
+            big = 1e36 if dt.itemsize == 4 else 1e150
+            a = (rng.standard_normal((S, H, W)) * big).astype(dt)
+            a[rng.random((S, H, W)) < 0.2] = dt.type(9.96921e36)
+        else:
+            # integers at the ends of the range sit next to typical nodata values, where GDAL's overview warp
+            # compares in floating point and nudges valid neighbours (back-end trait): plain random integers instead
             a = rng.integers(lo, hi, size=(S, H, W), dtype=dt, endpoint=True)
     elif kind == "blocky":
         by, bx = -(-H // 24), -(-W // 24)
